@@ -14,6 +14,7 @@ package fuzzsim
 import (
 	"fmt"
 	"os"
+	"regexp"
 	"runtime"
 	"runtime/metrics"
 	"sort"
@@ -27,6 +28,7 @@ import (
 	"github.com/youzan/ZanRedisDB/common"
 	"github.com/youzan/ZanRedisDB/node"
 	"github.com/youzan/ZanRedisDB/raft"
+	"github.com/youzan/ZanRedisDB/server"
 
 	"verif/sim/core"
 	"verif/sim/nodeh"
@@ -89,6 +91,7 @@ type panicRec struct {
 	name  string
 	args  []string
 	val   string
+	fn    string
 	site  string
 	stack string
 }
@@ -121,6 +124,7 @@ type sim struct {
 	hitShapes  map[string]bool
 	panicShape map[string]string // command name -> shape key of its last apply panic
 	extraWatch []string
+	hllKeys    map[string]bool // keys that took an accepted PFADD: their string view is a cache image
 
 	base  *dumpT // dump valid for the current state (nil = stale)
 	baseR rawSnap
@@ -136,7 +140,7 @@ var liveJournal = os.Getenv("VERIF_REPLAY") != "" || os.Getenv("VERIF_FUZZ_JOURN
 
 func Run(c *core.RunCtx) {
 	s := &sim{c: c, t: c.Tape, wrappedSM: map[*common.SMCmdRouter]bool{}, wrappedCR: map[*common.CmdRouter]bool{},
-		hitShapes: map[string]bool{}, panicShape: map[string]string{}}
+		hitShapes: map[string]bool{}, panicShape: map[string]string{}, hllKeys: map[string]bool{}}
 	s.cfg = drawCfg(c)
 	raft.VerifSeedGlobalRand(int64(c.Tape.U32()))
 	c.Log("cfg", "%+v", s.cfg)
@@ -211,42 +215,59 @@ func strCmd(args ...string) redcon.Command {
 
 // ---- panic observation ---------------------------------------------------------------
 
-func siteOf(stack string) string {
-	// first frame of the repository below the panic machinery
+var closureNum = regexp.MustCompile(`\.func\d+(\.\d+)*`)
+
+// parseStack returns the repository function that panicked (first frame of
+// github.com/youzan/ZanRedisDB below the panic machinery, prefix stripped), its
+// file:line, and the innermost non-runtime frame if that is a dependency.
+func parseStack(stack string) (fn string, site string) {
+	const pfx = "github.com/youzan/ZanRedisDB/"
 	lines := strings.Split(stack, "\n")
 	seenPanic := false
-	for _, l := range lines {
-		l = strings.TrimSpace(l)
-		if strings.HasPrefix(l, "panic(") || strings.Contains(l, "runtime.gopanic") || strings.Contains(l, "runtime.panic") || strings.Contains(l, "runtime.goPanic") {
+	inner := ""
+	for i := 0; i < len(lines); i++ {
+		l := lines[i]
+		if strings.HasPrefix(l, "\t") || strings.HasPrefix(l, " ") {
+			continue
+		}
+		if strings.HasPrefix(l, "panic(") {
 			seenPanic = true
 			continue
 		}
-		if !seenPanic {
+		if !seenPanic || strings.HasPrefix(l, "runtime.") || l == "" {
 			continue
 		}
-		if i := strings.Index(l, "/ZanRedisDB/"); i >= 0 && strings.Contains(l, ".go:") {
-			f := l[i+len("/ZanRedisDB/"):]
-			if j := strings.Index(f, " "); j >= 0 {
-				f = f[:j]
-			}
-			return f
+		name := l
+		if k := strings.LastIndex(name, "("); k > 0 {
+			name = name[:k]
 		}
-		if strings.HasPrefix(l, "/repo/") && strings.Contains(l, ".go:") {
-			f := l[len("/repo/"):]
-			if j := strings.Index(f, " "); j >= 0 {
-				f = f[:j]
+		if !strings.HasPrefix(name, pfx) {
+			if inner == "" {
+				inner = name
 			}
-			return f
+			continue
 		}
-		if strings.Contains(l, ".go:") && (strings.Contains(l, "/tmp/ag-") && strings.Contains(l, "/repo/")) {
-			f := l[strings.Index(l, "/repo/")+len("/repo/"):]
-			if j := strings.Index(f, " "); j >= 0 {
-				f = f[:j]
+		fn = closureNum.ReplaceAllString(strings.TrimPrefix(name, pfx), ".func")
+		if i+1 < len(lines) {
+			site = strings.TrimSpace(lines[i+1])
+			if k := strings.Index(site, " +0x"); k >= 0 {
+				site = site[:k]
 			}
-			return f
+			if k := strings.Index(site, "/ZanRedisDB/"); k >= 0 {
+				site = site[k+len("/ZanRedisDB/"):]
+			} else if k := strings.Index(site, "/repo/"); k >= 0 {
+				site = site[k+len("/repo/"):]
+			}
 		}
+		if inner != "" {
+			site += " (inside " + inner + ")"
+		}
+		return fn, site
 	}
-	return "?"
+	if inner != "" {
+		return inner, "?"
+	}
+	return "?", "?"
 }
 
 func (s *sim) notePanic(where, name string, cmd redcon.Command, e interface{}) {
@@ -258,9 +279,33 @@ func (s *sim) notePanic(where, name string, cmd redcon.Command, e interface{}) {
 		as = append(as, string(a))
 	}
 	s.mu.Lock()
-	s.panics = append(s.panics, panicRec{where: where, name: name, args: as, val: fmt.Sprint(e), site: siteOf(st), stack: st})
+	fn, site := parseStack(st)
+	s.panics = append(s.panics, panicRec{where: where, name: name, args: as, val: fmt.Sprint(e), fn: fn, site: site, stack: st})
 	s.mu.Unlock()
 }
+
+// capLogger receives the server package's log lines: serverRedis reports a
+// recovered panic of the connection path (with its stack) there.
+type capLogger struct{ s *sim }
+
+func (l *capLogger) note(msg string) {
+	if !strings.Contains(msg, "handle redis command") || !strings.Contains(msg, "panic") {
+		return
+	}
+	fn, site := parseStack(msg)
+	val := msg
+	if k := strings.LastIndex(msg, "\n:"); k >= 0 {
+		val = msg[k+2:]
+	} else if k := strings.LastIndex(msg, ":"); k >= 0 && len(msg)-k < 300 {
+		val = msg[k+1:]
+	}
+	l.s.mu.Lock()
+	l.s.panics = append(l.s.panics, panicRec{where: "conn", val: strings.TrimSpace(val), fn: fn, site: site, stack: msg})
+	l.s.mu.Unlock()
+}
+func (l *capLogger) Output(d int, m string) error        { l.note(m); return nil }
+func (l *capLogger) OutputErr(d int, m string) error     { l.note(m); return nil }
+func (l *capLogger) OutputWarning(d int, m string) error { l.note(m); return nil }
 
 func (s *sim) takePanics() []panicRec {
 	s.mu.Lock()
@@ -392,6 +437,8 @@ func (s *sim) bubble() {
 	s.cl = cl
 	s.m = cl.M[0]
 	defer cl.Close()
+	server.SetLogger(common.LOG_INFO, &capLogger{s})
+	defer server.SetLogger(0, nil)
 	cl.OnPoint = s.onPoint
 	s.wrapNode(s.m.Parts[0])
 	s.bootAt = time.Now()
@@ -500,10 +547,27 @@ func (s *sim) checkCoverage() {
 
 func (s *sim) invalidate() { s.base, s.baseR = nil, nil }
 
+// noteHLL remembers keys that hold hyperloglog data (an accepted PFADD).
+func (s *sim) noteHLL(args [][]byte, accepted bool) {
+	if accepted && len(args) >= 2 && strings.ToLower(string(args[0])) == "pfadd" && len(args[1]) < 11000 {
+		if !s.hllKeys[string(args[1])] {
+			s.hllKeys[string(args[1])] = true
+			s.invalidate()
+		}
+	}
+}
+
 // quiesce moves the clock past instants at which the store changes by itself
 // (local-deletion scan every 300 s since boot; pending expirations), so that a
 // before/after comparison never straddles one. It does not relax any check.
 func (s *sim) quiesce() {
+	// the hyperloglog write-back cache reaches the engine whenever a later
+	// entry happens to trigger a snapshot: write it out now, while the apply
+	// loop is idle, so that a later flush is not mistaken for an effect of the
+	// command under test
+	if s.base == nil {
+		s.flushHLL()
+	}
 	for i := 0; i < 4; i++ {
 		el := time.Since(s.bootAt)
 		period := 300 * time.Second
@@ -546,7 +610,16 @@ func (s *sim) send(args [][]byte, pipeline []redcon.Command) (*call, bool) {
 		s.cl.PumpFair(1, nil)
 	}
 	s.cl.Sleep(2 * time.Millisecond)
+	s.flushHLL()
 	return call, call.isDone()
+}
+
+// flushHLL: see quiesce. Called after every command, so that whatever a
+// command left in the hyperloglog cache is attributed to that command.
+func (s *sim) flushHLL() {
+	if st := s.store(); st != nil {
+		st.VerifFlushHLL()
+	}
 }
 
 // doValid sends a valid command and returns its first reply.
@@ -685,29 +758,24 @@ func familyOf(name string) string {
 	return "unknown"
 }
 
-// reportPanics turns recorded handler panics into violations. It returns true
-// if any was recorded.
+// reportPanics turns recorded handler panics into violations, keyed by the
+// function that panicked (every argument shape that reaches the same faulty
+// statement is the same finding). It returns true if any was recorded.
 func (s *sim) reportPanics(ps []panicRec, shape string, sent string) bool {
 	for _, p := range ps {
-		sh := shape
-		if sh == "" {
-			sh = s.panicShape[p.name]
-			if sh == "" {
-				sh = p.name + "-replay"
-			}
-		} else {
-			s.panicShape[p.name] = sh
-		}
 		switch p.where {
 		case "apply":
-			s.violate("apply-panic", "panic:"+sh, "the apply handler of %q panicked at %s: %s -- committed entry args: %s (client sent: %s). Production has no recover in the apply loop: the process dies and the entry is replayed (and panics again) on every restart",
-				p.name, p.site, p.val, renderStrs(p.args), sent)
+			s.violate("apply-panic", "panic:"+p.fn, "the apply handler of %q panicked in %s at %s: %s -- committed entry args: %s (client sent: %s). Production has no recover in the apply loop: the process dies and the entry is replayed (and panics again) on every restart",
+				p.name, p.fn, p.site, p.val, renderStrs(p.args), sent)
+		case "merge":
+			s.violate("merge-panic", "mergepanic:"+p.fn, "the merge handler of %q panicked in %s at %s: %s -- args: %s (client sent: %s). The server runs merge handlers in goroutines outside the connection's recover: the process dies",
+				p.name, p.fn, p.site, p.val, renderStrs(p.args), sent)
 		default:
-			s.violate("merge-panic", "mergepanic:"+sh, "the merge handler of %q panicked at %s: %s -- args: %s (client sent: %s). The server runs merge handlers in goroutines outside the connection's recover: the process dies",
-				p.name, p.site, p.val, renderStrs(p.args), sent)
+			s.c.Probe("conn_closed_by_recover")
+			s.violate("conn-panic", "connpanic:"+p.fn, "the connection handler panicked in %s at %s: %s on %s (the server's recover closed the connection without a reply)", p.fn, p.site, p.val, sent)
 		}
 		if s.c.KeepTrace {
-			s.c.Log("panic-stack", "%s", firstLines(p.stack, 14))
+			s.c.Log("panic-stack", "%s", firstLines(p.stack, 16))
 		}
 	}
 	return len(ps) > 0
@@ -774,8 +842,10 @@ func (s *sim) stepMutated() {
 		return
 	}
 	if o.connPanic {
-		c.Probe("conn_closed_by_recover")
-		s.violate("conn-panic", "connpanic:"+shape, "the connection handler panicked on %s (server recovered it and closed the connection without a reply)", sent)
+		if !hasConnPanic(o.panics) {
+			c.Probe("conn_closed_by_recover")
+			s.violate("conn-panic", "connpanic:"+shape, "the connection was closed without a reply on %s", sent)
+		}
 		s.hitShapes[shape] = true
 		failed = true
 	} else if o.noReply {
@@ -793,6 +863,7 @@ func (s *sim) stepMutated() {
 		s.nErr++
 	}
 	errLike := o.isErr || o.noReply || failed
+	s.noteHLL(args, !errLike)
 	r1 := s.rawSnap()
 	st := s.store()
 	if pend := st.VerifDefaultBatchPending(); pend != 0 || st.VerifIsBatching() {
@@ -834,7 +905,7 @@ func (s *sim) stepMutated() {
 			c.Probe("error_before_snapshot")
 		}
 	}
-	if len(o.panics) > 0 {
+	if hasProcPanic(o.panics) {
 		// what production does next: the supervisor restarts the dead process,
 		// which replays the poisoned entry
 		s.invalidate()
@@ -862,7 +933,7 @@ func (s *sim) stepMutated() {
 		}
 		d2 := s.dump()
 		if df := diffDump(d0, d2); df != "" {
-			s.violate("replay-diverged", "replay:"+shape, "%s -> %s; after a %s restart the node serves different data: %s", sent, o.text(), map[bool]string{true: "graceful", false: "kill -9"}[graceful], df)
+			s.violate("replay-diverged", replayKey(name, reachedApply), "%s -> %s; after a %s restart the node serves different data: %s", sent, o.text(), map[bool]string{true: "graceful", false: "kill -9"}[graceful], df)
 			s.hitShapes[shape] = true
 		}
 		s.base, s.baseR = d2, s.rawSnap()
@@ -896,4 +967,40 @@ func (s *sim) applied() uint64 {
 		return nn.Node.GetAppliedIndex()
 	}
 	return 0
+}
+
+func hasConnPanic(ps []panicRec) bool {
+	for _, p := range ps {
+		if p.where == "conn" {
+			return true
+		}
+	}
+	return false
+}
+
+// hasProcPanic: a panic that ends the process in production.
+func hasProcPanic(ps []panicRec) bool {
+	for _, p := range ps {
+		if p.where != "conn" {
+			return true
+		}
+	}
+	return false
+}
+
+// replayKey names a divergence after restart by the command that errored.
+// "set", "setex", "del" and "hmset" are the commands the apply loop batches
+// into the shared write batch.
+func replayKey(name string, reachedApply bool) string {
+	n := strings.ToLower(name)
+	switch n {
+	case "set", "setex", "del", "hmset":
+		if reachedApply {
+			return "replay:batchable-write-error"
+		}
+	}
+	if len(n) > 24 || strings.ContainsAny(n, "\x00 ") || n == "" {
+		n = "oddname"
+	}
+	return "replay:" + n
 }
